@@ -1,4 +1,5 @@
 """C16 — literals denote the values and types they denote in C++."""
+import re
 from irbmc import core
 from irbmc.core import Harness
 from props.parser_family import FAM, P, NOINLINE
@@ -28,6 +29,20 @@ def escape_step_harness():
                    opts=['--unwind', '18', '--no-array-field-sensitivity'], timeout=900, mem_gb=10, string_model=True, defines={'STRING_LITERALS_OPAQUE': 1},
                    inputs=['c', 'do_finish', 'cpm', 'match'], required_witness=('witness: accepted', 'witness: rejected', 'witness: inside a'),
                    note='inductive step: one parse() (+ optional finish()) from an arbitrary decoder state satisfying the representation invariant; covers literals of any length')
+
+def buildfloat_harness(tier):
+    rx = P + r'buildFloat\('
+    g, info = core.translate(FAM, [rx], [r'chaiscript::parse_num<', r'chaiscript::const_var'], tag='I3_probe')
+    ext = [e.split('|')[0].strip() for e in info['ext']]
+    def one(pat):
+        m = [e for e in ext if re.search(pat, e)]
+        if len(m) != 1: raise core.BuildError('buildFloat: expected exactly one external matching %s, found %d' % (pat, len(m)))
+        return 'F_' + core.cname(m[0])
+    d = {'BUILD_FLOAT': core.csym(FAM, rx), 'PARSE_F': one(r'9parse_numIfE'), 'PARSE_D': one(r'9parse_numIdE'), 'PARSE_E': one(r'9parse_numIeE'), 'CV_F': one(r'9const_varIfE'), 'CV_D': one(r'9const_varIdE'), 'CV_E': one(r'9const_varIeE')}
+    ns = (1, 2, 3, 4) if tier == 'quick' else (1, 2, 3, 4, 5, 6)
+    return Harness('I3.buildFloat(type selection)', FAM, [rx], 'c16_buildfloat.c', stubs=[r'chaiscript::parse_num<', r'chaiscript::const_var'],
+                   shapes=[dict(d, N=n, _tag='N=%d' % n, _witness=('witness: double',) + (('witness: float', 'witness: long double') if n >= 2 else ())) for n in ns], opts=['--unwind', '9'], timeout=120, mem_gb=4, inputs=['text'],
+                   note='every text of N bytes over digits / . / e E + - followed by at most one suffix character; the numeric conversion itself is a recorder')
 
 def buildint_harness():
     rx = P + r'buildInt\('
@@ -114,6 +129,7 @@ ESC = ('esc', "((c)=='\\\\'||(c)=='x'||(c)=='u'||(c)=='U'||(c)=='0'||(c)=='7'||(
 def harnesses(tier):
     hs = []
     hs.append(buildint_harness())
+    hs.append(buildfloat_harness(tier))
     hs.append(escape_step_harness())
     hs.append(id_harness(tier))
     if tier == 'quick': hs.append(escape_harness([1, 2], [ANY]))
@@ -125,4 +141,4 @@ def escape_harness_named(name, ns, alph):
 
 ASSUMPTIONS = ['std::stoll/std::stoi on the collected digit strings are an exact 12-line model (<= 9 digits), trusted',
                'std::string mutators are the SSO-only model (decoded literal <= 15 bytes)', 'eval_error constructors are cut']
-OUTSIDE = ['content that ends in a lone backslash (the quote scanners never produce it)', 'interpolation markers ($) in double-quoted strings: handled by Quoted_String, not by Char_Parser']
+OUTSIDE = ['the numeric value of floating literals (parse_num: digit loops in floating point, declined; only the type selection by suffix is decided: I3)', 'content that ends in a lone backslash (the quote scanners never produce it)', 'interpolation markers ($) in double-quoted strings: handled by Quoted_String, not by Char_Parser']
